@@ -237,3 +237,188 @@ def copy_completeness(chk, rule: str) -> int:
                    reason=f"fields {missing} are not copied: every state copy (one per tick) resets them to their defaults — a queued retry loses its attempt count / first-attempt time, "
                           f"so the policy is asked for the first-retry delay again and budgets restart")
     return sites
+
+
+def rehydrate_replays(chk, rule: str, instance: str = "rehydrate:every-waiter-replayed") -> None:
+    """`BrokerState.rehydrate_with_ticks` re-establishes the (unserializable) requirements of restored waiters by replaying the
+    waiting step: ONE replay tick per restored waiter that lost its requirements, carrying that waiter's own input event.
+    Decided structurally: the TickAddEvent is built per element of an iteration over `<worker>.collected_waiters` (order-only
+    wrappers and filters allowed), its event is the element's `.event`, and the only conditions between the iteration and the
+    tick are `w.has_requirements` / `not w.requirements` on that element (a further condition — de-duplication per step, a
+    cut after the first — drops waiters that the resumed run then never matches)."""
+    from ..astx import atoms, expand, facts_at, kwarg
+    from ..index import ancestors
+
+    repo = chk.repo
+    mst, rh = repo.func(f"{STATE}:BrokerState.rehydrate_with_ticks")
+    ticks = [c for c in ast.walk(rh) if isinstance(c, ast.Call) and (call_name_last(c) == "TickAddEvent")]
+    chk.floor(rule, "replay ticks built by rehydrate_with_ticks", len(ticks), 1)
+
+    def waiters_source(it: ast.AST, depth: int = 4) -> tuple[bool, list[ast.AST], str | None]:
+        """(draws every element of some `.collected_waiters`, filter conditions met on the way, filter variable)."""
+        conds: list[ast.AST] = []
+        var = None
+        while depth:
+            depth -= 1
+            if isinstance(it, ast.Attribute) and it.attr == "collected_waiters":
+                return True, conds, var
+            if isinstance(it, ast.Call) and isinstance(it.func, ast.Name) and it.func.id in ("sorted", "list", "tuple", "reversed", "iter") and it.args:
+                it = it.args[0]
+            elif isinstance(it, (ast.ListComp, ast.GeneratorExp)) and len(it.generators) == 1 and isinstance(it.elt, ast.Name) and isinstance(it.generators[0].target, ast.Name) \
+                    and it.elt.id == it.generators[0].target.id:
+                conds += it.generators[0].ifs
+                var = it.elt.id
+                it = it.generators[0].iter
+            elif isinstance(it, ast.Name):
+                it = expand(it, it, depth=1)
+                if isinstance(it, ast.Name):
+                    return False, conds, var
+            else:
+                return False, conds, var
+        return False, conds, var
+
+    cfg = CFG(rh)
+    for c in ticks:
+        ev = kwarg(c, "event", 0)
+        ev = expand(ev, c, depth=1) if isinstance(ev, ast.Name) else ev
+        elem = ev.value.id if isinstance(ev, ast.Attribute) and ev.attr == "event" and isinstance(ev.value, ast.Name) else None
+        loop = None
+        for a in ancestors(c):
+            if isinstance(a, (ast.For, ast.AsyncFor)) and isinstance(a.target, ast.Name) and a.target.id == elem:
+                loop = a
+                break
+            if isinstance(a, (ast.ListComp, ast.GeneratorExp)) and any(isinstance(g.target, ast.Name) and g.target.id == elem for g in a.generators):
+                loop = a
+                break
+        bad = ""
+        if elem is None or loop is None:
+            bad = f"the replayed event `{ast.unparse(ev) if ev is not None else None}` is not the input event of the waiter being iterated: the tick is built for one selected waiter, not once per restored waiter"
+        else:
+            if isinstance(loop, (ast.For, ast.AsyncFor)):
+                src_ok, conds, fvar = waiters_source(loop.iter)
+                extra = []
+                for n in cfg.nodes_of(enclosing_stmt_of(c)):
+                    extra += [(a, pol) for a, pol in facts_at(cfg, n) if not _waiter_need_atom(a, pol, elem)]
+                # facts established before the loop (on the step, the state) select nothing among the waiters of one step; only what is
+                # learnt between the loop head and the tick does
+                heads = [n for n in cfg.nodes if n.kind == "iter" and n.ast is loop]
+                before = set(facts_at(cfg, heads[0])) if heads else set()
+                extra = [x for x in extra if x not in before]
+            else:
+                g = [g for g in loop.generators if isinstance(g.target, ast.Name) and g.target.id == elem][0]
+                src_ok, conds, fvar = waiters_source(g.iter)
+                extra = [(a, pol) for t in g.ifs for a, pol in atoms(t) if not _waiter_need_atom(a, pol, elem)]
+            for t in conds:
+                extra += [(a, pol) for a, pol in atoms(t) if not _waiter_need_atom(a, pol, fvar or "")]
+            if not src_ok:
+                bad = f"the iteration `{ast.unparse(loop.iter if isinstance(loop, (ast.For, ast.AsyncFor)) else g.iter)[:80]}` does not draw every element of a step's collected_waiters"
+            elif extra:
+                bad = f"waiters are also selected by {sorted(set(('' if p else 'not ') + a for a, p in extra))[:3]}: a restored waiter with missing requirements can be left without its replay"
+            elif isinstance(loop, (ast.For, ast.AsyncFor)) and any(isinstance(b, ast.Break) for b in ast.walk(loop)):
+                bad = "the iteration over the waiters can be cut short (`break`)"
+        chk.ob(rule, "every restored waiter that lost its requirements gets its own replay tick carrying its own input event", not bad, m=mst, node=c, fn=rh, instance=instance, reason=bad)
+
+
+def _waiter_need_atom(a: str, pol: bool, elem: str) -> bool:
+    return (a == f"{elem}.has_requirements" and pol) or (a == f"{elem}.requirements" and not pol) or (a == f"len({elem}.requirements) == 0" and pol) or (a == f"len({elem}.requirements) > 0" and not pol)
+
+
+def call_name_last(c: ast.Call) -> str:
+    from ..astx import call_name, last
+    return last(call_name(c) or "")
+
+
+def enclosing_stmt_of(n: ast.AST) -> ast.AST:
+    from ..astx import enclosing_stmt
+    return enclosing_stmt(n)
+
+
+_HEAP_OPS = {"heappush", "heappop", "heapify", "heapreplace", "heappushpop"}
+_LIST_MUTATORS = {"pop", "append", "insert", "remove", "extend", "reverse", "__setitem__", "__delitem__"}
+
+
+def heap_discipline(chk, rule: str) -> None:
+    """The runner's pending wake-ups (retry delays, waiter timeouts, the workflow timeout) live in one list kept as a binary heap:
+    `[0]` is the earliest only as long as *every* structural change goes through heapq. A plain `.pop(0)` / `.append` / `del x[i]`
+    leaves a list whose first element is no longer the minimum: an earlier timer is buried behind a later one and served late or
+    never. Decided as a who-may-mutate rule over all methods of the runner (local aliases of the field followed)."""
+    from ..astx import call_name, expand, last
+
+    repo = chk.repo
+    mr, _ = repo.cls(RUNNER)
+    methods = repo.methods(RUNNER)
+    fields: set[str] = set()
+    for fn in methods.values():
+        for c in ast.walk(fn):
+            if isinstance(c, ast.Call) and last(call_name(c) or "") == "heappush" and c.args:
+                tgt = expand(c.args[0], c, depth=2)
+                if isinstance(tgt, ast.Attribute) and isinstance(tgt.value, ast.Name) and tgt.value.id == "self":
+                    fields.add(tgt.attr)
+    chk.floor(rule, "runner fields kept as a heap (targets of heapq.heappush)", len(fields), 1)
+
+    def heap_field(e: ast.AST, at: ast.AST) -> str | None:
+        x = expand(e, at, depth=2) if isinstance(e, ast.Name) else e
+        return x.attr if isinstance(x, ast.Attribute) and isinstance(x.value, ast.Name) and x.value.id == "self" and x.attr in fields else None
+
+    heap_ops = n_bad = 0
+    for name, fn in methods.items():
+        for n in ast.walk(fn):
+            bad = None
+            if isinstance(n, ast.Call) and last(call_name(n) or "") in _HEAP_OPS and n.args and heap_field(n.args[0], n):
+                heap_ops += 1
+            elif isinstance(n, ast.Call) and isinstance(n.func, ast.Attribute) and n.func.attr in _LIST_MUTATORS and heap_field(n.func.value, n):
+                bad = (n, f".{n.func.attr}(…)")
+            elif isinstance(n, ast.Subscript) and isinstance(n.ctx, (ast.Store, ast.Del)) and heap_field(n.value, n):
+                bad = (n, "item assignment / deletion")
+            elif isinstance(n, ast.AugAssign) and heap_field(n.target, n):
+                bad = (n, "augmented assignment")
+            if bad is not None:
+                n_bad += 1
+                chk.ob(rule, "the wake-up heap is changed only through heapq (so its first entry is always the earliest pending wake-up)", False, m=mr, node=bad[0], fn=fn,
+                       instance=f"heap:discipline:{name}", reason=f"`{ast.unparse(bad[0])[:70]}` ({bad[1]}) changes the heap list without restoring the heap order: "
+                       f"after it `[0]` need not be the earliest wake-up, so a due retry delay / waiter timeout / workflow timeout is served late or never")
+    chk.floor(rule, "structural changes of the runner's wake-up heap", heap_ops + n_bad, 2)
+    st = methods.get("schedule_tick") or next(iter(methods.values()))
+    chk.ob(rule, "every structural change of the wake-up heap goes through heapq", True, m=mr, node=st, fn=st, instance="heap:discipline")
+
+
+def commands_fully_processed(chk, rule: str) -> None:
+    """The runner executes *every* command a reducer hands back (`_reduce_tick` per tick, `rewind_in_progress` at resume) through
+    `process_command`: publications (StepStateChanged, stream events), worker starts and schedules are all commands, and a loop
+    that picks some kinds and drops the rest silently removes their effect for that path only (e.g. a resumed run whose restarted
+    invocations never announce RUNNING). Decided per producer: the list is iterated, and no iteration can go on to the next
+    element without `process_command(<element>)`."""
+    from ..astx import call_name, iteration_can_skip, last
+
+    repo = chk.repo
+    mr, _ = repo.cls(RUNNER)
+    n_prod = 0
+    for name, fn in repo.methods(RUNNER).items():
+        for st in ast.walk(fn):
+            if not (isinstance(st, ast.Assign) and isinstance(st.value, (ast.Call, ast.Await))):
+                continue
+            call = st.value.value if isinstance(st.value, ast.Await) else st.value
+            if not (isinstance(call, ast.Call) and last(call_name(call) or "") in ("_reduce_tick", "rewind_in_progress")):
+                continue
+            tgt = st.targets[0]
+            if not (isinstance(tgt, ast.Tuple) and len(tgt.elts) == 2 and isinstance(tgt.elts[1], ast.Name)):
+                continue
+            n_prod += 1
+            cmds = tgt.elts[1].id
+            producer = last(call_name(call))
+            def _over(it: ast.AST) -> bool:      # the list itself, or an element-preserving wrapper of it
+                while isinstance(it, ast.Call) and isinstance(it.func, ast.Name) and it.func.id in ("list", "tuple", "iter") and len(it.args) == 1:
+                    it = it.args[0]
+                return isinstance(it, ast.Name) and it.id == cmds
+            loops = [lp for lp in ast.walk(fn) if isinstance(lp, (ast.For, ast.AsyncFor)) and _over(lp.iter) and isinstance(lp.target, ast.Name)]
+            bad = ""
+            if not loops:
+                bad = f"the commands returned by {producer} are never iterated in {name}"
+            cfg = CFG(fn)
+            for lp in loops:
+                must = [c for c in ast.walk(lp) if isinstance(c, ast.Call) and last(call_name(c) or "") == "process_command" and c.args and isinstance(c.args[0], ast.Name) and c.args[0].id == lp.target.id]
+                if not must or iteration_can_skip(cfg, lp, must):
+                    bad = bad or (f"an iteration over the commands of {producer} can go on without `process_command({lp.target.id})`: commands of some kind (publications such as "
+                                  f"StepStateChanged(RUNNING), schedules, …) are dropped on this path only")
+            chk.ob(rule, f"every command returned by {producer} is executed through process_command", not bad, m=mr, node=st, fn=fn, instance=f"commands-processed:{producer}", reason=bad)
+    chk.floor(rule, "reducer results (state, commands) consumed by the runner", n_prod, 2)
